@@ -15,6 +15,10 @@ From Abacus.C04 Require Properties.
 From Abacus.C15 Require Properties.
 From Abacus.C17 Require Properties.
 From Abacus.C01 Require Properties.
+From Abacus.C08 Require Parts Spec Model Gen Properties.
+From Abacus.C09 Require Model TwoPass.
+From Abacus.C10 Require Model Proofs Properties.
+From Coq Require Permutation.
 Import ListNotations.
 Local Open Scope Z_scope.
 
@@ -118,3 +122,57 @@ Theorem zipper_in_bounds :
   is_ok (C01.Model.load dec cleaned passthrough filt load_ab cat garbage) = true.
 Proof. exact C01.Properties.zipper_safe. Qed.
 Print Assumptions zipper_in_bounds.
+
+(* Fourier-mode binning: edge arrays, mesh and per-thread accumulators, for every mesh size, strictly increasing edges (mu
+   edges from <= 0 to >= 1), wavenumbers beyond the last edge included, every execution order and thread assignment *)
+Theorem bin_kmu_in_bounds : forall n E M W T order sched,
+  0 < n -> 0 < T -> C08.Spec.incr E -> C08.Spec.incr M -> 2 <= len E -> 2 <= len M ->
+  (C08.Spec.qnth M 0 <= 0)%Q -> (1 <= C08.Spec.qlast M)%Q ->
+  len W = n * n * (n / 2 + 1) -> C08.Spec.valid_sched T sched -> Permutation.Permutation order (C08.Spec.range n) ->
+  C08.Model.bin_kmu C08.Gen.kmu_gen n E M W T order sched <> Oob.
+Proof.
+  intros n E M W T order sched H1 H2 H3 H4 H5 H6 H7 H8 H9 H10 H11.
+  rewrite (C08.Properties.bin_kmu_counts n E M W T order sched H1 H2 H3 H4 H5 H6 H7 H8 H9 H10 H11). discriminate.
+Qed.
+Print Assumptions bin_kmu_in_bounds.
+
+Theorem bin_kppi_in_bounds : forall n E PI W T order sched,
+  0 < n -> 0 < T -> C08.Spec.incr E -> C08.Spec.incr PI -> 2 <= len E -> 2 <= len PI -> (C08.Spec.qnth PI 0 <= 0)%Q ->
+  len W = n * n * (n / 2 + 1) -> C08.Spec.valid_sched T sched -> Permutation.Permutation order (C08.Spec.range n) ->
+  C08.Model.bin_kppi C08.Gen.kppi_gen n E PI W T order sched <> Oob.
+Proof.
+  intros n E PI W T order sched H1 H2 H3 H4 H5 H6 H7 H8 H9 H10.
+  rewrite (C08.Properties.bin_kppi_counts n E PI W T order sched H1 H2 H3 H4 H5 H6 H7 H8 H9 H10). discriminate.
+Qed.
+Print Assumptions bin_kppi_in_bounds.
+
+(* ... and the per-thread accumulators of both kernels have a slab for every thread id the loop can produce, whatever
+   numba thread count is in force when the kernel is entered (event order regenerated from the source) *)
+Theorem binning_accumulators_cover_threads :
+  C08.Parts.threads_covered C08.Gen.kmu_tevents /\ C08.Parts.threads_covered C08.Gen.kppi_tevents.
+Proof. exact C08.Properties.accumulators_cover_threads. Qed.
+Print Assumptions binning_accumulators_cover_threads.
+
+(* HOD two-pass kernels (gen_cent / gen_sats skeleton): keep codes, per-thread counts, prefix sums and the fill pass, for
+   every thread count and every monotone block table, empty host table and more threads than hosts included *)
+Theorem hod_two_pass_in_bounds : forall (A R : Type) (code : A -> Z) (fill : Z -> A -> R) Nthread hstart hosts,
+  C09.TwoPass.good_hstart Nthread hstart (len hosts) ->
+  C09.Model.two_pass A R code fill Nthread hstart hosts <> Oob.
+Proof.
+  intros A R code fill Nthread hstart hosts G.
+  destruct (C10.Properties.two_pass_is_filter A R code fill Nthread hstart hosts G) as [tr E].
+  rewrite E. discriminate.
+Qed.
+Print Assumptions hod_two_pass_in_bounds.
+
+(* fast_concatenate: every thread split the regenerated formula can produce *)
+Theorem fast_concatenate_in_bounds : forall (E : Type) (a1 a2 : list E) Nthread hstart1 hstart2,
+  1 <= Nthread ->
+  (2 <= Nthread -> 1 <= len a1 -> 1 <= len a2 -> C10.Proofs.good_tables E a1 a2 Nthread hstart1 hstart2) ->
+  C10.Model.fast_concatenate E a1 a2 Nthread hstart1 hstart2 <> Oob.
+Proof.
+  intros E a1 a2 Nthread h1 h2 H1 H2.
+  destruct (C10.Properties.concat_correct E a1 a2 Nthread h1 h2 H1 H2) as [tr [Eq _]].
+  rewrite Eq. discriminate.
+Qed.
+Print Assumptions fast_concatenate_in_bounds.
